@@ -290,7 +290,7 @@ PROPS["C08"] = {
         "C08.area_nonempty_in_range", "C08.explicit_lines_honoured", "C08.start_line_exact", "C08.end_line_exact",
         "C08.both_lines_boundaries", "C08.auto_flag_spec", "C08.auto_items_disjoint",
     ],
-    "harness": "C08", "driver": "C08", "monitor": True,
+    "harness": "C08", "driver": "C08", "monitor": True, "extra_ties": [("GRID", "GRID")], "extra_tie_cases": 1500,
     "rule": _C08_RULE,
     "trusted_base": _C08_TRUST,
     "assumptions": [
@@ -380,7 +380,7 @@ PROPS["C11"] = {
         "C11.blockReported_of_length_border",
         "C11.block_monitor_sound", "C11.flex_monitor_sound", "C11.grid_monitor_sound",
     ],
-    "harness": "C11", "driver": "C11", "monitor": True, "extra_ties": [("EVAL", "EVAL"), ("FLEX", "FLEX")], "extra_tie_cases": 4000,
+    "harness": "C11", "driver": "C11", "monitor": True, "extra_ties": [("EVAL", "EVAL"), ("FLEX", "FLEX"), ("GRID", "GRID")], "extra_tie_cases": 4000,
     "rule": "a real tree per case: container (block/flex/grid round-robin; size mostly definite lengths, sometimes auto/percent; "
             "random padding, border (occasionally percent), overflow incl. scroll on either axis, scrollbar width 0/4/7.5/15, "
             "box-sizing, min/max, all four flex directions, wrap-reverse, every justify/align value; grid without explicit tracks) "
@@ -619,7 +619,7 @@ _PAIRS_TRUSTED = [
 
 PROPS["C01"] = {
     "modules": C01_EVAL_MODULES + EVALBLOCK_MODULES + EVALFLEX_MODULES + ["TaffyVerif.Props.C15", "TaffyVerif.Props.C15Pass"], "theorems": C01_EVAL_THEOREMS + EVALBLOCK_C01 + EVALFLEX_C01 + ["C15.step_preserves_K", "C15.I_reachable", "C15Pass.pass_cleans"],  # PLACEHOLDER — C01's theorems (stamp_valid, transparency under HitAfterQuiet, …) to be added
-    "harness": "C01", "driver": "C01", "monitor": False, "extra_ties": [("EVAL", "EVAL"), ("FLEX", "FLEX")], "extra_tie_cases": 4000, "harness_timeout": 900,
+    "harness": "C01", "driver": "C01", "monitor": False, "extra_ties": [("EVAL", "EVAL"), ("FLEX", "FLEX"), ("GRID", "GRID")], "extra_tie_cases": 4000, "harness_timeout": 900,
     "rule": "random histories (5-25 ops) on ONE long-lived TaffyTree<Ctx> next to a mirror description: set_style (fresh / identical / "
             "display:none toggle), set_node_context, add_child / insert_child_at_index / replace_child_at_index with a newly generated or a "
             "detached subtree, remove_child_at_index, remove_children_range (in range), set_children (permutation / reparenting; no cycles), "
@@ -650,7 +650,7 @@ PROPS["C01"] = {
 
 PROPS["C16"] = {
     "modules": C16_EVAL_MODULES + EVALBLOCK_MODULES + EVALFLEX_MODULES, "theorems": C16_EVAL_THEOREMS + EVALBLOCK_C16 + EVALFLEX_C16,  # PLACEHOLDER — C16's theorems (body_evals_le_distinct_keys, queries_per_invocation, chain_const) to be added
-    "harness": "C16", "driver": "C16", "monitor": False, "harness_timeout": 900, "extra_ties": [("EVAL", "EVAL"), ("FLEX", "FLEX")], "extra_tie_cases": 4000,
+    "harness": "C16", "driver": "C16", "monitor": False, "harness_timeout": 900, "extra_ties": [("EVAL", "EVAL"), ("FLEX", "FLEX"), ("GRID", "GRID")], "extra_tie_cases": 4000,
     "rule": "fresh trees, one compute_layout pass each: (i) 3000 random mixes (all displays, hidden/absolute nodes, Fixed and Wrap leaves) with "
             "up to 40/150/300 nodes, depth up to 12, up to 10 children; (ii) single-child chain families (same level styles cycled, depth "
             "1..64): every container kind and five mixed cycles x nine sizing variants x four available spaces x Fixed/Wrap leaf, plus 300 "
@@ -674,7 +674,7 @@ PROPS["C16"] = {
 
 PROPS["C17"] = {
     "modules": C17_MODULES + EVALFLEX_MODULES, "theorems": C17_THEOREMS + EVALFLEX_C01,  # PLACEHOLDER — C17's theorems (dispatch_eq, drivers_eq) to be added
-    "harness": "C17", "driver": "C17", "monitor": False, "extra_ties": [("EVAL", "EVAL"), ("FLEX", "FLEX")], "extra_tie_cases": 4000, "harness_timeout": 900,
+    "harness": "C17", "driver": "C17", "monitor": False, "extra_ties": [("EVAL", "EVAL"), ("FLEX", "FLEX"), ("GRID", "GRID")], "extra_tie_cases": 4000, "harness_timeout": 900,
     "rule": "12 000 generated trees (full observation lines for the first 4000 and for every differing case) (60% up to 12 nodes / depth 3, 40% up to 40 nodes / depth 6; flex/grid/block/none, Fixed/Wrap/no measure "
             "data), random available space, rounding on or off. Each is laid out by TaffyTree::compute_layout_with_measure and by an "
             "independent Vec-backed tree (harness/src/hist.rs VTree) that implements TraversePartialTree, TraverseTree, LayoutPartialTree, "
@@ -700,7 +700,7 @@ PROPS["C17"] = {
 
 PROPS["C04"] = {
     "modules": ['TaffyVerif.Props.C04'], "theorems": ['C04.num_homogeneous', 'C04.resolve_homogeneous', 'C04.aspect_ratio_homogeneous', 'C04.clamp_homogeneous', 'C04.margin_set_homogeneous', 'C04.measure_homogeneous', 'C04.leaf_homogeneous', 'C04.leaf_homogeneous_ctx', 'C04.root_homogeneous', 'C04.abs_homogeneous', 'C04.abs_call_sites_homogeneous', 'C04.flex_line_homogeneous', 'C04.block_homogeneous', 'C04.flow_loop_homogeneous', 'C04.place_item_homogeneous', 'C04.tree_homogeneous', 'C04.tree_homogeneous_fresh', 'C04.tree_homogeneous_evalNode', 'C04.leafAlg_homogeneous', 'C04.algs_homogeneous_concrete', 'C04.tree_homogeneous_concrete', 'C04.cache_roughly_equal_homogeneous', 'C04.cache_roughly_equal_not_homogeneous'],
-    "harness": "C04", "driver": "C04", "monitor": False, "extra_ties": [("EVAL", "EVAL"), ("FLEX", "FLEX")], "extra_tie_cases": 4000,
+    "harness": "C04", "driver": "C04", "monitor": False, "extra_ties": [("EVAL", "EVAL"), ("FLEX", "FLEX"), ("GRID", "GRID")], "extra_tie_cases": 4000,
     "rule": "style trees of 1-12 nodes, depth <= 4, flex/grid/block mixed (treegen::gen_tree with every feature on: hidden, "
             "absolute, percentages, aspect ratios, content-box, auto/negative margins, scroll containers, wrap/fixed measure "
             "contexts, grid lines) plus extra grid tracks (fit-content(px/%), minmax(px, px|auto|max-content), auto-fill/auto-fit) "
@@ -735,7 +735,7 @@ PROPS["C04"] = {
 
 PROPS["C12"] = {
     "modules": ['TaffyVerif.Props.C12'], "theorems": ['C12.core_arith', 'C12.adjustment_context_free', 'C12.core_site_shape', 'C12.core_flex_basis', 'C12.isAuto_invariant', 'C12.leaf_site_equiv', 'C12.root_site_equiv', 'C12.single_leaf_equiv', 'C12.abs_site_equiv_block', 'C12.abs_site_equiv_flex', 'C12.abs_site_equiv_grid', 'C12.abs_call_sites_equiv', 'C12.block_container_site_equiv', 'C12.block_item_site_equiv', 'C12.tree_equiv', 'C12.tree_equiv_init', 'C12.tree_equiv_root', 'C12.leafAlg_blind', 'C12.block_blind', 'C12.boxBlind_modelled', 'C12.tree_equiv_modelled', 'C12.tree_equiv_block_only', 'C12.grid_compressible_cap_site_not_equiv', 'C12.grid_compressible_cap_repaired_equiv'],
-    "harness": "C12", "driver": "C12", "monitor": False, "extra_ties": [("EVAL", "EVAL"), ("FLEX", "FLEX")], "extra_tie_cases": 4000,
+    "harness": "C12", "driver": "C12", "monitor": False, "extra_ties": [("EVAL", "EVAL"), ("FLEX", "FLEX"), ("GRID", "GRID")], "extra_tie_cases": 4000,
     "rule": "style trees of 1-12 nodes as for C04 in which half of the nodes are made content-box with length-valued padding/border "
             "(multiples of 1/4, mostly non-zero), no aspect ratio, percentages in size/min/max/flex-basis replaced by lengths or auto, "
             "extra definite lengths (other content-box nodes from the base generator stay ineligible: percentage padding, aspect "
@@ -756,7 +756,7 @@ PROPS["C12"] = {
 
 PROPS["C05"] = {
     "modules": C05_EVAL_MODULES + C17_MODULES + EVALBLOCK_MODULES + EVALFLEX_MODULES, "theorems": C05_EVAL_THEOREMS + ["C17.dispatch_eq"] + EVALBLOCK_C05 + EVALFLEX_C05,
-    "harness": "C05", "driver": "C05", "monitor": False, "extra_ties": [("EVAL", "EVAL"), ("FLEX", "FLEX")], "extra_tie_cases": 4000,
+    "harness": "C05", "driver": "C05", "monitor": False, "extra_ties": [("EVAL", "EVAL"), ("FLEX", "FLEX"), ("GRID", "GRID")], "extra_tie_cases": 4000,
     "rule": "style trees of 2-12 nodes as for C04, with 1-3 extra non-root nodes forced to display:none (keeping their subtrees, "
             "half of them with explicit grid-row/grid-column lines -5..6 / spans, some absolute, some with sizes and margins); for "
             "EVERY non-root display:none node h: tree B = A with h's subtree replaced by a bare Style{display:None,..DEFAULT} leaf. "
@@ -776,7 +776,7 @@ PROPS["C05"] = {
 
 PROPS["C06"] = {
     "modules": C06_EVAL_MODULES + EVALBLOCK_MODULES, "theorems": C06_EVAL_THEOREMS + EVALBLOCK_C06,
-    "harness": "C06", "driver": "C06", "monitor": False, "extra_ties": [("EVAL", "EVAL"), ("FLEX", "FLEX")], "extra_tie_cases": 4000,
+    "harness": "C06", "driver": "C06", "monitor": False, "extra_ties": [("EVAL", "EVAL"), ("FLEX", "FLEX"), ("GRID", "GRID")], "extra_tie_cases": 4000,
     "rule": "style trees of 2-12 nodes as for C04, with 1-3 extra non-root nodes forced to position:absolute (random insets incl. "
             "percentages and negatives, a quarter with explicit grid lines, a quarter with auto lines, a third with large sizes); for "
             "EVERY non-root absolute node a with display != none: tree B = A with a's subtree replaced by a bare "
@@ -806,7 +806,7 @@ PROPS["C09"] = {
         "C03Tracks.alignment_divisors_positive", "C03Tracks.distribute_progress", "C03Tracks.distribute_terminates",
         "C03Tracks.maximise_params_wf",
     ],
-    "harness": "C09", "driver": "C09", "monitor": True,
+    "harness": "C09", "driver": "C09", "monitor": True, "extra_ties": [("GRID", "GRID")], "extra_tie_cases": 1500,
     "rule": "function-level requests through cfg(taffy_verif) hooks: compute_explicit_grid_size_in_axis (real Style through "
             "GridContainerStyle; templates of 0-4 entries mixing px, %, fr, auto, min/max-content, fit-content, minmax(), "
             "repeat(0-3,[..]) incl. empty lists, one or two auto-fill/auto-fit repetitions; inner size none/0/35/../1000; "
